@@ -28,9 +28,10 @@ def run_history(ctx, rng, conf_name, conf, length, hist_id, check_post=False):
     known = []
     reqs = []
     try:
+        pre = davsim.warmup(rng) if rng.random() < 0.6 else []
         for i in range(length):
-            r = davsim.gen_request(rng, sim, known)
-            user = "u" if rng.random() < 0.9 else "v"
+            r = pre.pop(0) if pre else davsim.gen_request(rng, sim, known)
+            user = "u" if rng.random() < 0.9 or i < 6 else "v"
             reqs.append((user, r))
             obs, ans, diffs = sim.step(r, user)
             if "etag_raw" in obs:
